@@ -74,7 +74,11 @@ def planned_name(ctx, exc):
 
 
 def ev_raise(ctx, out, exc):
-    ctx.ev("raise", out, type(exc).__name__, planned_name(ctx, exc))
+    name = type(exc).__name__
+    planned = planned_name(ctx, exc)
+    if planned is not None and name in ("StopIteration", "StopAsyncIteration"):
+        name = "Stop"  # a planned protocol exception of a user callable: same role on both sides
+    ctx.ev("raise", out, name, planned)
 
 
 # ---- consumers -------------------------------------------------------------
